@@ -295,9 +295,17 @@ def uncertainty_tokenizer(input_string: str) -> Generator[TokenInfo, None, None]
             )
             std_dev = next(toklist)
             if "." not in std_dev.string:
+                # the digits in parentheses are aligned with the last digits of the
+                # nominal value: 1.234(5) is 1.234 +/- 0.005 and 123(4) is 123 +/- 4
+                mantissa = nominal_value.string.lower().split("e")[0]
+                decimals = len(mantissa.split(".")[1]) if "." in mantissa else 0
+                digits = std_dev.string
+                if decimals:
+                    digits = digits.rjust(decimals + 1, "0")
+                    digits = digits[:-decimals] + "." + digits[-decimals:]
                 std_dev = tokenize.TokenInfo(
                     type=std_dev.type,
-                    string="0." + std_dev.string,
+                    string=digits,
                     start=std_dev.start,
                     end=std_dev.end,
                     line=line,
